@@ -11,7 +11,7 @@ RULE = (
     "applies and none is injected. Non-trivial = history of >= 2 calls with at least one non-zero rotation; distinct = "
     "distinct event digests among those."
 )
-PROBES = ["repeat-last", "return-to-fold", "history>=4", "mixed-dm-period", "dm-only", "period-only", "nonzero-rotation", "one-step-compared", "non-contiguous-cube", "implied-shift>=1.5-bins-checked"]
+PROBES = ["repeat-last", "return-to-fold", "history>=4", "mixed-dm-period", "dm-only", "period-only", "nonzero-rotation", "one-step-compared", "non-contiguous-cube", "implied-shift>=1.5-bins-checked", "header-dm-differs-from-folding-dm"]
 COMPONENTS = {
     "real": ["sigpyproc.foldedcube.FoldedData.update_dm/update_period/_get_dmdelays/_get_pdelays", "params.compute_dmdelays"],
     "simulated": ["the call history (targets, order, repeats)"],
